@@ -119,12 +119,18 @@ def userNameToFileName(userName, existing=[], prefix="", suffix=""):
     sliceLength = maxFileNameLength - prefixLength - suffixLength
     userName = userName[:sliceLength]
     # test for illegal files names
-    parts = []
-    for part in userName.split("."):
-        if part.lower() in reservedFileNames:
-            part = "_" + part
-        parts.append(part)
-    userName = ".".join(parts)
+    # (escaping a reserved part makes the name longer and clipping may expose
+    # another one, so repeat until the name no longer changes)
+    while True:
+        parts = []
+        for part in userName.split("."):
+            if part.lower() in reservedFileNames:
+                part = "_" + part
+            parts.append(part)
+        escapedName = ".".join(parts)[:sliceLength]
+        if escapedName == userName:
+            break
+        userName = escapedName
     # test for clash
     fullName = prefix + userName + suffix
     if fullName.lower() in existing:
